@@ -117,6 +117,9 @@ type Recorder struct {
 	mu    sync.Mutex
 	Calls []string
 	Reads uint64 // number of headers asked of the store (GetRange widths, Get, GetByHeight, Head for a head request)
+	// OnHasAt, when set, runs right after the underlying HasAt answered: the store may change between the server's
+	// existence check and its next read.
+	OnHasAt func(h uint64)
 }
 
 func (r *Recorder) log(s string, reads uint64) {
@@ -140,7 +143,11 @@ func (r *Recorder) Head(ctx context.Context, o ...header.HeadOption[*vhdr.Header
 }
 func (r *Recorder) HasAt(ctx context.Context, h uint64) bool {
 	r.log(fmt.Sprintf("HasAt:%d", h), 0)
-	return r.Store.HasAt(ctx, h)
+	ok := r.Store.HasAt(ctx, h)
+	if f := r.OnHasAt; f != nil {
+		f(h)
+	}
+	return ok
 }
 func (r *Recorder) Get(ctx context.Context, hash header.Hash) (*vhdr.Header, error) {
 	r.log("Get", 1)
